@@ -287,5 +287,13 @@ func genCase(r *vh.Rng) Case {
 		c.K = int64(1 + r.Intn(7))
 		genFilterSort(r, c.Field, &c.Args, false)
 	}
+	if c.Field == "dualI" && r.Chance(30) {
+		// the custom FilterFuncs must work whichever resolver the switch selects
+		if r.Bool() {
+			c.Args.FilterType, c.Args.FilterText = pstr("prefix"), pstr(r.Pick(prefixTexts))
+		} else {
+			c.Args.FilterType, c.Args.FilterText = pstr("exact"), pstr(r.Pick(words))
+		}
+	}
 	return c
 }
